@@ -434,6 +434,9 @@ func (r ruleData) toAuditRuleData() (*auditRuleData, error) {
 }
 
 func (r *ruleData) fromAuditRuleData(in *auditRuleData) error {
+	if in.FieldCount > uint32(len(in.Fields)) {
+		return fmt.Errorf("too many fields (%d), only %d are supported", in.FieldCount, len(in.Fields))
+	}
 	r.flags = in.Flags
 	r.action = in.Action
 	r.fields = make([]field, in.FieldCount)
